@@ -477,7 +477,7 @@ def execute(run):
                 vals3 = [_value(train_df[nm].to_numpy(), k_, q_)
                          for nm, k_, q_ in zip(names3, like['kinds'], like['q'])]
                 other = GaussianMultivariate(
-                    **gmvlib.fix_dict_keys(run['config']['ctor'], list(df3.columns)))
+                    **gmvlib.fix_dict_keys(run['config']['ctor'], list(df3.columns), n_rows=len(df3)))
                 with sterile(op['state']):
                     o = outcome(other.fit, df3)
                     if o[0] == 'ok':
